@@ -139,7 +139,7 @@ func (ch c19) Run(c *core.Ctx) {
 	}
 	hist := 25
 	if c.Tier == "thorough" {
-		hist = 120
+		hist = 1500
 	}
 	if c.Batch == 0 {
 		c.Count("exhaustive_parts", 1)
@@ -325,7 +325,7 @@ func (ch c19) runConn(c *core.Ctx, env *hs.Env, cfg c19cfg, ending string, rng *
 		return
 	}
 	c.Eval(fmt.Sprintf("%+v %s h%d", cfg, ending, nhist), cfg.N >= 2 || ending != "eof")
-	if cfg.N == 3 && ending == "terminate" {
+	if (cfg.N == 3 && ending == "terminate") || c.Evals < 2 {
 		c.Sample(map[string]any{"config": fmt.Sprintf("%+v", cfg), "ending": ending, "middleware_offsets": st.mwOffsets, "contexts_captured": len(st.ctxs)})
 	}
 }
